@@ -277,6 +277,9 @@ class SessionBuilder:
         op: Dict[str, Any] = {"op": "cli", "c": cid, "argv": argv, "s1": s1}
         if files:
             op["files"] = files
+        if rng.random() < 0.25:
+            # a scratch file name used again for another contract (edit-and-reanalyse loops)
+            op["fname"] = "contract.teal"
         return self.add(op)
 
     def cli_group(self, s1: Any) -> Optional[Dict[str, Any]]:
@@ -517,15 +520,48 @@ def group_yaml(contracts: List[Dict[str, Any]], groups: List[Dict[str, Any]]) ->
 
 
 def add_group_op(b: SessionBuilder, rng: random.Random, ctx: GenCtx, s1: Any) -> Optional[Dict[str, Any]]:
-    op = make_group(rng, ctx)
+    last = getattr(b, "last_group", None)
+    op = None
+    if last is not None and rng.random() < 0.35:
+        op = twin_swapped(last, rng, ctx)
+    if op is None:
+        op = make_group(rng, ctx)
     if op is None:
         return None
+    b.last_group = op  # type: ignore
     op["s1"] = s1
-    if rng.random() < 0.3:
-        op["printers"] = b._side(rng)  # pylint: disable=protected-access
+    if rng.random() < 0.45:
+        # the one printer that reads the contexts, plus whatever else
+        op["printers"] = ["transaction-context"] + b._side(rng)[:1]  # pylint: disable=protected-access
     if rng.random() < 0.4:
         op["h"] = b.handle("G")
     return b.add(op)
+
+
+def twin_swapped(prev: Dict[str, Any], rng: random.Random, ctx: GenCtx) -> Optional[Dict[str, Any]]:
+    """The previous config loaded again with one contract replaced by a near-twin of it under the
+    same contract name, function names and dispatch paths (a new revision of a program deployed
+    under the old name)."""
+    cands = [name for name, cid in sorted(prev["cmap"].items()) if cid in ctx.twins]
+    if not cands:
+        return None
+    name = rng.choice(cands)
+    old_cid = prev["cmap"][name]
+    new_cid = rng.choice(ctx.twins[old_cid])
+    if ctx.paths.get(new_cid) is None:
+        return None
+    valid = set(tuple(p) for p in ctx.paths[new_cid])
+    for key, path in prev["paths"].items():
+        if key.startswith(name + "/") and tuple(path) not in valid:
+            return None
+    op = {k: v for k, v in prev.items() if k not in ("uid", "h", "fault", "s1", "printers")}
+    op["cmap"] = dict(prev["cmap"])
+    op["cmap"][name] = new_cid
+    op["contracts"] = sorted(set(op["cmap"].values()))
+    for field in ("yaml", "canon_yaml", "canon"):
+        op[field] = prev[field].replace("file_path: %s.teal" % old_cid, "file_path: %s.teal" % new_cid)
+    op["dets"] = list(prev["dets"])
+    return op
 
 
 def make_group(rng: random.Random, ctx: GenCtx) -> Optional[Dict[str, Any]]:
